@@ -255,6 +255,19 @@ Definition deploy_one (x : wl) (decr : option nat) : cprog oerr :=
 Fixpoint seq_nat (start len : nat) : list nat :=
   match len with O => [] | S l => start :: seq_nat (S start) l end.
 
+(* the per-instance loop of doDeployWorkloadsOnNode (the instance goroutines, one after the other) *)
+Fixpoint deploy_loop (opi : nat) (pod n : name) (r : res) (idxs : list nat) : cprog (list nat * list msg) :=
+  match idxs with
+  | [] => Ret (@nil nat, @nil msg)
+  | i :: rest =>
+    let id := mkWid opi n i in
+    e <- deploy_one (mkWl id n pod r) (Some opi) ;;
+    let m := if is_ok e then MCreateOk id r else MCreateFail n in
+    send m ;;;
+    t <- deploy_loop opi pod n r rest ;;
+    Ret ((if is_ok e then fst t else i :: fst t), m :: snd t)
+  end.
+
 (* doDeployWorkloadsOnNode: returns the indices to roll back and the messages produced *)
 Definition deploy_on_node (opi : nat) (pod n : name) (k : nat) (r : res) : cprog (list nat * list msg) :=
   e <- get_and_prepare_node n ;;
@@ -263,18 +276,7 @@ Definition deploy_on_node (opi : nat) (pod n : name) (k : nat) (r : res) : cprog
     (* these messages carry the error only, no node name *)
     for_all (seq_nat 0 k) (fun _ => send MCreateErr) ;;;
     Ret (seq_nat 0 k, repeat MCreateErr k)
-  | None =>
-    (fix loop (idxs : list nat) : cprog (list nat * list msg) :=
-       match idxs with
-       | [] => Ret (@nil nat, @nil msg)
-       | i :: rest =>
-         let id := mkWid opi n i in
-         e <- deploy_one (mkWl id n pod r) (Some opi) ;;
-         let m := if is_ok e then MCreateOk id r else MCreateFail n in
-         send m ;;;
-         t <- loop rest ;;
-         Ret ((if is_ok e then fst t else i :: fst t), m :: snd t)
-       end) (seq_nat 0 k)
+  | None => deploy_loop opi pod n r (seq_nat 0 k)
   end.
 
 Record cstate_create := mkCS {
